@@ -46,7 +46,8 @@ def plan(tier):
         "timeout_s": 420 if q else 2400,
         "min_nontrivial": 60 if q else 800,
         "required_counters": ["oracle_output_compare", "faults_fired", "reference_runs", "cases_soft_or_own",
-                              "cases_failstop_all"],
+                              "cases_failstop_all", "cases_fault_sequence_on_one_job", "cases_pop_processor_outputs",
+                              "cases_two_deployments"],
         "rule": "case = (shape, fault set, perturbation seed); single faults enumerated over every (job, phase in "
                 "{schedule,transfer,execute}, kind in {soft, fail-stop/own, fail-stop/all}, count 1..3) of the small "
                 "shapes (quick: a seeded sample, thorough: all), pairs of faults on two different jobs, random "
@@ -66,7 +67,10 @@ def shapes(tier):
              C.scatter(1), C.scatter(2), C.scatter(3), C.scatter(3, pre=False), C.scatter(2, body=2),
              C.loop(0, pre=True, post=True), C.loop(1), C.loop(2), C.loop(3), C.loop(2, pre=True, post=True),
              C.loop(1, post=True), C.diamond(1, 1), C.diamond(1, 2), C.diamond(2, 2, pre=False),
-             C.diamond(1, 1, post=True)]
+             C.diamond(1, 1, post=True),
+             # outputs through PopCommandOutputProcessor; pipelines / scatter over two deployments (replicas)
+             C.with_pop(C.pipeline(3)), C.with_pop(C.scatter(2)), C.two_sites(3, (2,)), C.two_sites(3, (1,)),
+             C.two_sites_scatter(2)]
     large = [C.scatter(12), C.scatter(5, body=2), C.scatter(7), C.loop(4), C.loop(5, body=2), C.loop(6),
              C.loop(3, body=2, pre=True, post=True),
              C.combo_pipe_scatter_pipe(3), C.combo_scatter_loop(3, 2), C.combo_loop_scatter(3, 2),
@@ -98,6 +102,15 @@ def gen_cases(sh: Shard):
                 cases.append({"prog": sp, "group": "single-large",
                               "faults": [{"job": j, "phase": rng.choice(C.PHASES), "kind": kind,
                                           "count": rng.choice((1, 2, 3))}]})
+    # 1b. fault SEQUENCES on one job across phases (recovered once with the data intact, then again after a loss),
+    # optionally after an upstream fail-stop
+    seq_shapes = [C.pipeline(2), C.pipeline(3), C.scatter(2), C.scatter(3), C.diamond(1, 1), C.scatter(2, body=2),
+                  C.two_sites(3, (2,)), C.with_pop(C.pipeline(3))]
+    names_small = {sp["shape"] for sp in small}
+    for sp in seq_shapes:
+        assert sp["shape"] in names_small, sp["shape"]
+        for f in C.sequence_faults(sp):
+            cases.append({"prog": sp, "faults": f, "group": "sequence"})
     # 2. pairs of faults on two different jobs (concurrent when the jobs are siblings)
     for sp in small + large:
         jobs = [j["job"] for j in R.jobs_of(sp)]
@@ -164,6 +177,12 @@ def run_case(sh: Shard, case: dict) -> None:
     sh.case(key, nontrivial=nfired > 0)
     sh.count("faults_fired", nfired)
     sh.count("cases_failstop_all" if any(f["kind"] == "all" for f in faults) else "cases_soft_or_own")
+    if len({f["job"] for f in faults}) < len(faults):
+        sh.count("cases_fault_sequence_on_one_job")
+    if prog.get("pop"):
+        sh.count("cases_pop_processor_outputs")
+    if prog.get("sites"):
+        sh.count("cases_two_deployments")
     for f in faults:
         sh.count(f"phase_{f['phase']}")
     if any(f["job"].rsplit(".", 1)[-1].isdigit() and int(f["job"].rsplit(".", 1)[-1]) >= 10 and "." in f["job"].rsplit("/", 1)[-1]
